@@ -5,7 +5,8 @@
 PROPS = {
     "C14": dict(pkg="c14", run="^TestC14$", shards=4, timeout_quick=300, timeout_thorough=1500, net=114),
     "C19": dict(pkg="c19", run="^TestC19$", shards=8, timeout_quick=300, timeout_thorough=1500, net=119),
-    "C16": dict(pkg="c16", run="^TestC16$", shards=8, timeout_quick=300, timeout_thorough=1500, net=116),
+    "C16": dict(pkg="c16", run="^TestC16$", shards=8, timeout_quick=300, timeout_thorough=1500, net=116,
+                fuzz=[dict(target="FuzzC16", time="60s")]),
     "C01": dict(pkg="c01", run="^TestC01$", shards=8, timeout_quick=600, timeout_thorough=2400, net=101),
     "C04": dict(pkg="c04", run="^TestC04$", shards=8, timeout_quick=600, timeout_thorough=2400, net=104),
     "C05": dict(pkg="c05", run="^TestC05$", shards=8, timeout_quick=600, timeout_thorough=2400, net=105),
@@ -20,7 +21,8 @@ PROPS = {
     "C20": dict(pkg="c20", run="^TestC20$", shards=4, timeout_quick=600, timeout_thorough=2400, net=120),
     "C10": dict(pkg="c10", run="^TestC10$", shards=8, timeout_quick=600, timeout_thorough=2400, net=110),
     "C13": dict(pkg="c13", run="^TestC13$", shards=8, timeout_quick=900, timeout_thorough=3000, net=113),
-    "C07": dict(pkg="c07", run="^TestC07$", shards=8, timeout_quick=900, timeout_thorough=3000, net=107),
+    "C07": dict(pkg="c07", run="^TestC07$", shards=8, timeout_quick=900, timeout_thorough=3000, net=107,
+                fuzz=[dict(target="FuzzC07", time="150s")]),
     "C18": dict(pkg="c18", run="^TestC18$", shards=8, timeout_quick=1200, timeout_thorough=3000, net=118),
     "C17": dict(pkg="c17", run="^TestC17$", shards=8, timeout_quick=1200, timeout_thorough=3000, net=117,
                 extra_builds=[dict(pkg="c17", out="c17race.test", flags=["-race"])]),
